@@ -111,14 +111,23 @@ func (s *SUT) BlockAttempt(rng *rand.Rand, cl string) (Op, []Problem) {
 	}
 	s.junk = append(s.junk, b.Blockid)
 	before := s.snap()
-	perr := s.N.State.Play(b.Blockid)
-	op := s.log(Op{Kind: "blockattempt", Arg: fmt.Sprintf("%s,bad=%d/%d", cl, bad, len(b.Transactions)), Result: fmt.Sprint(perr)})
+	// through Play or through Walk (the engine's path for peer blocks: one step, on the state's tip)
+	var perr error
+	via := "play"
+	if rng.Intn(2) == 0 {
+		via = "walk"
+		perr = s.N.Walk(b.Blockid, false)
+	} else {
+		perr = s.N.State.Play(b.Blockid)
+	}
+	s.Stats["blockattempt.via-"+via]++
+	op := s.log(Op{Kind: "blockattempt", Arg: fmt.Sprintf("%s,%s,bad=%d/%d", cl, via, bad, len(b.Transactions)), Result: fmt.Sprint(perr)})
 	s.Stats["blockattempt.played"]++
 	s.Stats["blockattempt."+cl]++
 	if perr == nil {
 		before.world.Drop()
 		return op, []Problem{{Sig: "block|admitted-inadmissible|" + cl,
-			Detail: fmt.Sprintf("Play accepted block %x whose transaction #%d (%x) is inadmissible at its turn: %s", b.Blockid, bad, b.Transactions[bad].Txid, why)}}
+			Detail: fmt.Sprintf(via+" accepted block %x whose transaction #%d (%x) is inadmissible at its turn: %s", b.Blockid, bad, b.Transactions[bad].Txid, why)}}
 	}
 	return op, s.compareSnap(before, "play:blockattempt")
 }
